@@ -468,7 +468,9 @@ def main_run(prop, tier, seed, examples=None, shard=None, out=None, jobs=None, r
         for c, frac in prop.floors.items():
             got = stats.classes.get(c, 0) / max(1, stats.evaluations - stats.enumerated)   # of the searched cases
             # a small finite class saturates in long runs (Hypothesis does not repeat examples): an absolute count is enough
-            if got < frac and stats.classes.get(c, 0) < 300:
+            # the declared floor is the nominal share; a run fails only below 60 % of it (seed-to-seed variation must
+            # never turn into an alarm), or below an absolute count for classes that saturate
+            if got < 0.6 * frac and stats.classes.get(c, 0) < 300:
                 floor_fail.append('%s: %.3f < %.3f' % (c, got, frac))
     ev = write_evidence(prop, tier, seed, stats, violations, wall, r.findings)
     for i, f in r.findings.for_prop(prop.id):
